@@ -230,3 +230,36 @@ def make_reward(pg, r):
     if t == 'S': return R.SumReward([make_reward(pg, x) for x in r[1]])
     if t == 'C': return R.CombinedReward([make_reward(pg, x) for x in r[1]])
     raise ValueError(r)
+
+
+# ----------------------------------------------------------------------------- model queries
+def setup_model(drv, cfg, kind):
+    out = drv.ask(space_request(cfg, kind))
+    return int(out.split()[1])
+
+
+def model_moment(drv, cfg, center, permute, rewards, times):
+    names = cfg_names(cfg)
+    toks = []
+    for r in rewards:
+        toks += reward_spec(r, names)
+    line = f"moment {1 if center else 0} {1 if permute else 0} {len(rewards)} {' '.join(toks)} {rlist(times)}"
+    return [Fraction(x) for x in drv.ask(line).split()]
+
+
+def model_cdf(drv, times):
+    return [Fraction(x) for x in drv.ask(f'cdf {rlist(times)}').split()]
+
+
+def cfg_from_json(cfg):
+    """undo jsonable() on a configuration stored in a replay file"""
+    cfg = dict(cfg)
+    cfg['n'] = dict(cfg['n'])
+    cfg['model'] = tuple(cfg['model'])
+    eps = []
+    for e in cfg['epochs']:
+        e = dict(e)
+        e['mig'] = {(eval(k) if isinstance(k, str) else tuple(k)): v for k, v in e['mig'].items()}
+        eps.append(e)
+    cfg['epochs'] = eps
+    return cfg
